@@ -235,6 +235,13 @@ def gen_requests(rng, tier):
         "chunk-size-plus": b"POST / HTTP/1.1\r\nHost: x\r\nTransfer-Encoding: chunked\r\n\r\n+2\r\nab\r\n0\r\n\r\n",
         "bad-chunk-terminator": b"POST / HTTP/1.1\r\nHost: x\r\nTransfer-Encoding: chunked\r\n\r\n2\r\nabXX0\r\n\r\n",
         "bad-last-chunk-terminator": b"POST / HTTP/1.1\r\nHost: x\r\nTransfer-Encoding: chunked\r\n\r\n2\r\nab\r\n0\r\nXX",
+        # bytes that are not UTF-8 / not ASCII where the reader decodes text: still the peer's malformed input (a 400 and a close), never an uncaught error
+        "chunk-size-not-utf8": b"POST / HTTP/1.1\r\nHost: x\r\nTransfer-Encoding: chunked\r\n\r\n\xff\r\nab\r\n0\r\n\r\n",
+        "chunk-size-digit-then-latin1": b"POST / HTTP/1.1\r\nHost: x\r\nTransfer-Encoding: chunked\r\n\r\n2\xe9\r\nab\r\n0\r\n\r\n",
+        "chunk-size-truncated-utf8": b"POST / HTTP/1.1\r\nHost: x\r\nTransfer-Encoding: chunked\r\n\r\n\xc3\r\nab\r\n0\r\n\r\n",
+        "chunk-size-arabic-digit": b"POST / HTTP/1.1\r\nHost: x\r\nTransfer-Encoding: chunked\r\n\r\n\xd9\xa2\r\nab\r\n0\r\n\r\n",
+        "cl-not-ascii": b"POST / HTTP/1.1\r\nHost: x\r\nContent-Length: \xb2\r\n\r\nab",
+        "cl-arabic-digit": b"POST / HTTP/1.1\r\nHost: x\r\nContent-Length: \xd9\xa2\r\n\r\nab",
         "double-space-request-line": b"GET  / HTTP/1.1\r\nHost: x\r\n\r\n",
         "bad-method-char": b"G@T / HTTP/1.1\r\nHost: x\r\n\r\n",
         "http-2-version": b"GET / HTTP/2.0\r\nHost: x\r\n\r\n",
